@@ -310,7 +310,10 @@ Inductive cmd :=
 | RpcCfgDelete (cas : bool) (k : ckey) (cidx : N).
 
 (* shouldSkipUpsertOperation: the stored entry equals the submitted one once the submitted RaftIndex
-   is overwritten with the stored one -- the supplied ModifyIndex is never looked at *)
+   is overwritten with the stored one -- the supplied ModifyIndex is never looked at.
+   (For kinds with a Status the comparison also sees the stored Hash field, which a plain upsert that
+   inherited the status leaves stale; that is not modelled and the harness generates this command for
+   kinds without a Status only.) *)
 Definition rpc_skip_upsert (k : ckey) (content status : N) (s : st) : bool :=
   match cfg s !! k with
   | Some x => bool_decide (ce_content x = content) && bool_decide (ce_status x = if controlled k then status else 0)
